@@ -1,4 +1,4 @@
-\* generator configuration for property C13: run with -simulate; prints schedules (generated by hand-off script)
+\* generator configuration for property C01: run with -simulate; prints schedules (generated by hand-off script)
 SPECIFICATION Spec
 CONSTANTS
   c1 = c1
@@ -6,17 +6,17 @@ CONSTANTS
   Clients <- GClients
   Nodes <- GNodes
   SlotNode <- Slot3
-  Menu <- MenuGen
+  Menu <- MenuGenQ
   MaxReq <- GMaxReq
-  AnswerKinds <- AKgenRedir
+  AnswerKinds <- AKok
   MaxMsg = 8
   TimeoutOn = FALSE
   MaxBkClose = 0
   AllowCliClose = FALSE
-  MaxHops = 2
+  MaxHops = 0
   MaxBurst = 3
   CanonKinds = TRUE
   PoolAny = FALSE
-  MaxPause = 0
+  MaxPause = 1
 INVARIANTS PrintViol NoViolation PrintSched
 CHECK_DEADLOCK FALSE
